@@ -10,6 +10,7 @@ package main
 import (
 	"bufio"
 	"context"
+	"encoding"
 	"encoding/json"
 	stdflag "flag"
 	"fmt"
@@ -110,7 +111,8 @@ func docSupports(kind string) bool {
 
 // SItem is the element of the slice-of-struct leaf kind (decoders only)
 type SItem struct {
-	N int `dials:"n"`
+	N int       `dials:"n"`
+	W time.Time `dials:"w"` // a text-unmarshalable struct held by value inside a slice element (never pointerified)
 }
 
 // a flag given twice, each occurrence with a part of the value: the parts accumulate
@@ -305,7 +307,10 @@ func leafValue(kind string, id int) (reflect.Value, string, interface{}) {
 	case "durs":
 		return reflect.ValueOf([]time.Duration{time.Duration(id) * time.Second, time.Minute}), "", []interface{}{fmt.Sprintf("%ds", id), "1m0s"}
 	case "structs":
-		return reflect.ValueOf([]SItem{{N: id}, {N: id + 1}}), "", []interface{}{map[string]interface{}{"n": id}, map[string]interface{}{"n": id + 1}}
+		w := time.Date(2021, 3, 4, 5, 6, id%60, 0, time.UTC)
+		ws := w.Format(time.RFC3339)
+		return reflect.ValueOf([]SItem{{N: id, W: w}, {N: id + 1, W: w}}), "",
+			[]interface{}{map[string]interface{}{"n": id, "w": ws}, map[string]interface{}{"n": id + 1, "w": ws}}
 	case "f32":
 		return reflect.ValueOf(float32(id) + 0.25), fmt.Sprintf("%d.25", id), float64(id) + 0.25
 	case "c64":
@@ -882,7 +887,8 @@ func tomlText(m map[string]interface{}, path string, b *strings.Builder) {
 		keys = append(keys, k)
 	}
 	sort.Strings(keys)
-	enc := func(v interface{}) string {
+	var enc func(v interface{}) string
+	enc = func(v interface{}) string {
 		if s, ok := v.(string); ok && len(s) == 20 && s[4] == '-' && s[10] == 'T' && s[19] == 'Z' {
 			return s // a TOML datetime is written bare
 		}
@@ -892,8 +898,7 @@ func tomlText(m map[string]interface{}, path string, b *strings.Builder) {
 				for _, e := range l {
 					var kvs []string
 					for k, x := range e.(map[string]interface{}) {
-						j, _ := json.Marshal(x)
-						kvs = append(kvs, fmt.Sprintf("%s = %s", tomlKey(k), j))
+						kvs = append(kvs, fmt.Sprintf("%s = %s", tomlKey(k), enc(x)))
 					}
 					sort.Strings(kvs)
 					items = append(items, "{"+strings.Join(kvs, ", ")+"}")
@@ -1048,6 +1053,48 @@ func (r *srcRun) runDecoders() {
 	}
 }
 
+var textUnmarshalerT = reflect.TypeOf((*encoding.TextUnmarshaler)(nil)).Elem()
+
+// shapeDiff walks an original type and its translation by a type-preserving mangler chain in parallel (fields matched by
+// name; the translation may have extra fields) and reports the first leaf whose type changed.
+func shapeDiff(o, t reflect.Type, path string) string {
+	for o.Kind() == reflect.Ptr && t.Kind() == reflect.Ptr {
+		o, t = o.Elem(), t.Elem()
+	}
+	isLeaf := o.Kind() != reflect.Struct || o.Implements(textUnmarshalerT) || reflect.PtrTo(o).Implements(textUnmarshalerT)
+	if !isLeaf {
+		if t.Kind() != reflect.Struct {
+			return fmt.Sprintf("%s: %s became %s", path, o, t)
+		}
+		for i := 0; i < o.NumField(); i++ {
+			of := o.Field(i)
+			tf, ok := t.FieldByName(of.Name)
+			if !ok {
+				return fmt.Sprintf("%s.%s: no counterpart in the translated type", path, of.Name)
+			}
+			if d := shapeDiff(of.Type, tf.Type, path+"."+of.Name); d != "" {
+				return d
+			}
+		}
+		return ""
+	}
+	switch o.Kind() {
+	case reflect.Slice, reflect.Array:
+		if t.Kind() != o.Kind() {
+			return fmt.Sprintf("%s: %s became %s", path, o, t)
+		}
+		return shapeDiff(o.Elem(), t.Elem(), path+"[]")
+	case reflect.Map:
+		if o.Elem().Kind() == reflect.Struct && o.Elem().NumField() == 0 && t.Kind() == reflect.Slice {
+			return "" // a set became a slice
+		}
+	}
+	if o != t {
+		return fmt.Sprintf("%s: %s became %s", path, o, t)
+	}
+	return ""
+}
+
 // the bare transformer: an empty translated value reverses to an entirely unset original
 func (r *srcRun) runEmptyReverse() {
 	chains := map[string][]transform.Mangler{
@@ -1063,6 +1110,13 @@ func (r *srcRun) runEmptyReverse() {
 			if err != nil {
 				r.add("C10", name, "Translate failed: %v", err)
 				return
+			}
+			if name == "alias+setslice" {
+				// these manglers leave every leaf's type alone (a set becomes a slice): the translated counterpart of a leaf must
+				// still be able to hold the leaf's value, wherever the leaf sits (also inside slice / array elements)
+				if d := shapeDiff(r.ptyp, val.Type(), ""); d != "" {
+					r.add("C10", name, "translated type cannot hold the original's values: %s", d)
+				}
 			}
 			back, err := tf.ReverseTranslate(val)
 			if err != nil {
